@@ -2,12 +2,13 @@
 // are never admitted".
 //
 // Driver PRODUCT (DESIGN.md §2, §7 C04): a declared finite mutation alphabet is
-// enumerated completely and deterministically over ten valid base vertices on
+// enumerated completely and deterministically over the valid base vertices on
 // two ledger states of one real (instrumented) AccountingBook:
 //
 //	S1 = genesis + 2 proposals (single tip)     S2 = genesis + 1 proposal + 1 crafted vertex (two tips)
 //	bases on S1: transfer, countersigned contract, contract without receiver signature,
-//	             boundary amount {0,10^18-1}, 70 000 byte data, transfer on non-tip parents
+//	             boundary amount {0,10^18-1}, 70 000 byte data, self-addressed countersigned contract (issuer = receiver),
+//	             transfer on non-tip parents
 //	bases on S2: equal parents, two different parents, countersigned contract on two parents,
 //	             transfer with the parents in the other order
 //
@@ -322,6 +323,8 @@ func makeBases(info stateInfo) []*base {
 			seal(world.MakeTx(R, A.Addr, "c04 boundary amount", nil, sp(0, spice.MaxAmountPerSupplementaryCurrency-1), 104), tip, tip))
 		add("large-data", "data transaction R->A carrying 70 000 bytes",
 			seal(world.MakeTx(R, A.Addr, "c04 large data", bigData(), sp(0, 0), 105), tip, tip))
+		add("contract-countersigned-self-addressed", "data transaction R->R (issuer is its own receiver) countersigned by R, sealed by M: issuer and receiver signature are two fields holding the same bytes",
+			seal(world.CounterSign(world.MakeTx(R, R.Addr, "c04 self addressed contract", []byte("self-addressed-contract-payload"), sp(0, 0), 107), R), tip, tip))
 		add("nontip-parents", "spice transfer R->B 2.0 sealed by M on a confirmed (non-tip) vertex, smaller weight",
 			seal(world.MakeTx(R, B.Addr, "c04 inner parents", nil, sp(2, 0), 106), inner, inner))
 	case "S3":
